@@ -50,10 +50,11 @@ func (m *Migrator) MigrateFiles(patterns []string, outputPath string) error {
 	var results []MigrationResult
 	var allWarnings []Warning
 
-	// Create a shared TypeConverter for all transforms (using first package's types)
+	// Create a shared TypeConverter for all transforms, using the types of the package that holds
+	// the wire configuration (with patterns like ./... it need not be the first package loaded)
 	var sharedTypeConverter *TypeConverter
-	if len(pkgs) > 0 && pkgs[0].Types != nil {
-		sharedTypeConverter = NewTypeConverter(pkgs[0].Types)
+	if home := m.wirePackage(pkgs); home != nil && home.Types != nil {
+		sharedTypeConverter = NewTypeConverter(home.Types)
 	}
 
 	for _, pkg := range pkgs {
@@ -245,4 +246,22 @@ func (m *Migrator) mergeResults(results []MigrationResult, typeConverter *TypeCo
 		Imports:       imports,
 		TopLevelDecls: decls,
 	}, writer, nil
+}
+
+// wirePackage returns the first loaded package one of whose files imports google/wire,
+// or the first package when none does.
+func (m *Migrator) wirePackage(pkgs []*packages.Package) *packages.Package {
+	for _, pkg := range pkgs {
+		for _, file := range pkg.Syntax {
+			if m.parser.FindWireImport(file) != "" {
+				return pkg
+			}
+		}
+	}
+
+	if len(pkgs) > 0 {
+		return pkgs[0]
+	}
+
+	return nil
 }
